@@ -52,7 +52,9 @@ M = [
                                                             "                    let cached_response = response.message.clone();\n                    let has_more_chunks = Self::maybe_serve_cached_response(\n                        request,\n                        request_block2,\n                        &cached_response,\n                    )?;\n                    if has_more_chunks {\n                        state.cached_response = request.response.as_ref().map(|r| r.message.clone());")], ["C08"]),
  ("c08_release_inverted", "src/block_handler/mod.rs", [("                if !has_more_chunks {\n                    state.cached_response = None", "                if has_more_chunks {\n                    state.cached_response = None")], ["C08"]),
  ("c08_skip_high_options", "src/block_handler/mod.rs", [("        for (&option, value) in src.options() {\n", "        for (&option, value) in src.options() {\n            if option > 20 {\n                continue;\n            }\n")], ["C08"]),
- ("c09_final_clones_buffer", "src/block_handler/mod.rs", [("                    let cached_payload =\n                        mem::take(&mut state.cached_request_payload).unwrap();", "                    let cached_payload =\n                        state.cached_request_payload.clone().unwrap();")], ["C09"]),
+ ("c09_final_clones_buffer", "src/block_handler/mod.rs", [("                    let mut cached_payload =\n                        mem::take(&mut state.cached_request_payload).unwrap();", "                    let mut cached_payload =\n                        state.cached_request_payload.clone().unwrap();")], ["C09"]),
+ ("c09_no_truncate", "src/block_handler/mod.rs", [("                    cached_payload.truncate(\n                        payload_offset + request.message.payload.len(),\n                    );\n", "")], ["C09"]),
+ ("c09_truncate_block_end", "src/block_handler/mod.rs", [("                    cached_payload.truncate(\n                        payload_offset + request.message.payload.len(),\n                    );\n", "                    cached_payload.truncate(\n                        payload_offset + request_block1.size(),\n                    );\n")], ["C09"]),
  ("c09_continue_returns_false", "src/block_handler/mod.rs", [("                        MessageClass::Response(ResponseType::Continue);\n                    Ok(true)", "                        MessageClass::Response(ResponseType::Continue);\n                    Ok(false)")], ["C09"]),
  ("c09_413_without_block1", "src/block_handler/mod.rs", [("                    .ok_or_else(HandlingError::not_handled)?;\n                response\n                    .message\n                    .add_option_as(CoapOption::Block1, response_block1);\n                response.message.header.code = MessageClass::Response(\n                    ResponseType::RequestEntityTooLarge,", "                    .ok_or_else(HandlingError::not_handled)?;\n                let _ = response_block1;\n                response.message.header.code = MessageClass::Response(\n                    ResponseType::RequestEntityTooLarge,")], ["C09"]),
  ("c10_no_reserve", "src/block_handler/mod.rs", [("(message_size + BLOCK_OPTIONS_MAX_LENGTH) - total_payload_size;", "message_size - total_payload_size;")], ["C10"]),
@@ -80,6 +82,10 @@ M = [
  ("c15_u8_counter", "src/observe.rs", [("observer.unacknowledged_messages.saturating_add(1);", "observer.unacknowledged_messages + 1;")], ["C15"]),
  ("c16_no_backslash_escape", "src/link_format.rs", [("            if (c == '\"' || c == '\\\\') && self.0.error.is_none() {", "            if c == '\"' && self.0.error.is_none() {")], ["C16"]),
  ("c16_scanner_no_escape_skip", "src/link_format.rs", [("                            Some(QUOTE_ESCAPE_CHAR) => {\n                                // Slashes always escape the next character,\n                                // since we are scanning and not parsing we\n                                // just skip it.\n                                iter.next();\n                            }\n", "")], ["C16"]),
+ ("c16_unquote_escape_literal", "src/link_format.rs", [("                    Some(QUOTE_ESCAPE_CHAR) => self.inner.next(),", "                    Some(QUOTE_ESCAPE_CHAR) => {\n                        self.inner.next().map(|_| QUOTE_ESCAPE_CHAR)\n                    }")], ["C16"]),
+ ("c16_attr_scanner_conditional_skip", "src/link_format.rs", [("                            Some(QUOTE_ESCAPE_CHAR) => {\n                                iter.next();\n                            }", "                            Some(QUOTE_ESCAPE_CHAR) => {\n                                if iter.as_str().starts_with('\"') {\n                                    iter.next();\n                                }\n                            }")], ["C16"]),
+ ("c16_writer_fast_path", "src/link_format.rs", [("        for c in value.chars() {\n            if (c == '\"' || c == '\\\\') && self.0.error.is_none() {", "        for c in value.chars().filter(|_| value.contains('\"')) {\n            if (c == '\"' || c == '\\\\') && self.0.error.is_none() {")], ["C16"]),
+ ("c16_writer_escape_after", "src/link_format.rs", [("            if self.0.error.is_none() {\n                self.0.error = self.0.write.write_char(c).err();\n            }\n        }\n", "            if self.0.error.is_none() {\n                self.0.error = self.0.write.write_char(c).err();\n            }\n            if c == '\\\\' && self.0.error.is_none() {\n                self.0.error = self.0.write.write_char(c).err();\n            }\n        }\n")], ["C16"]),
  ("c17_error_keeps_inner", "src/link_format.rs", [("                Some(_) => {\n                    self.inner = \"\";\n                    return Some(Err(ErrorLinkFormat::ParseError));", "                Some(_) => {\n                    return Some(Err(ErrorLinkFormat::ParseError));")], ["C17"]),
  ("c17_to_cow_old", "src/link_format.rs", [("                match body.find('\"') {\n                    Some(end) => Cow::from(&body[..end]),\n                    None => Cow::from(body),\n                }", "                Cow::from(&body[..body.len() - 1])")], ["C17"]),
  ("c18_unguarded_quote", "src/link_format.rs", [("        self.internal_attr_key_eq(key);\n\n        if self.0.error.is_none() {\n            self.0.error = self.0.write.write_char('\"').err();\n        }\n\n        for c in value.chars() {", "        self.internal_attr_key_eq(key);\n\n        self.0.error = self.0.write.write_char('\"').err();\n\n        for c in value.chars() {")], ["C18"]),
